@@ -235,3 +235,17 @@ Definition claim_err_matches (now lw : Z) (opts : copts) (k : str) (v : pv) (e :
 (* every clause about one claim holds (exp = now-leeway allowed) *)
 Definition claim_satisfied (now lw : Z) (opts : copts) (k : str) (v : pv) : bool :=
   cl_value_one false opts k v && cl_blank_one opts k v && cl_number_one k v && cl_time_one false now lw k v.
+
+(* ---------- a registry without built-in rules (ClaimsRegistry used directly):
+   every claim, whatever its name (aud, exp, ... included), is judged by its
+   request only: equals `value`, is one of `values`, not blank unless allowed ---------- *)
+Definition plain_ok (opts : copts) (k : str) (v : pv) : bool :=
+  match request opts k with
+  | None => true
+  | Some o =>
+      (match req_value o with Some r => req_eq false r v | None => true end &&
+       match req_values o with Some l => existsb (fun r => req_eq false r v) l | None => true end) &&
+      implb (is_empty_str v) (req_flag (o_allow_blank o))
+  end.
+Definition accepts_base (opts : copts) (claims : cclaims) : bool :=
+  cl_essential opts claims && on_claims (plain_ok opts) claims.
